@@ -9,6 +9,7 @@ from vlib import gZ, gQ, gN
 from props import c01_gen as G
 from props import c01_gen2 as G2
 from props import c01_gen3 as G3
+from props import c01_gen4 as G4
 
 F = fractions.Fraction
 PID = 'C01'
@@ -135,9 +136,19 @@ def gen_cases(rng, tier, ctx):
         c2['nptypes'] = 'unsigned' if j % 2 else 'signed'
         cases.append(c2)
     cases.extend(G3.gen_edge_cases(rng))
+    # round 5: time dependent transformation values (ParallelChannelPT value / ArithmeticPT scalar containing t) on atoms that
+    # do not start at program time 0; judged against the equivalent tree of modelled node kinds (see c01_gen4)
+    cases.extend(G4.gen_tdep_cases(rng, tier))
     for c in rng.sample(base, 30 if tier == 'quick' else 600):
         c2 = dict(c)
         c2['warm'] = {k: str(F(v) + rng.choice([F(1), F(-1), F(1, 2)])) for k, v in c['params'].items()}
+        cases.append(c2)
+    # round 5 (audit of the known-finding predicates): every input of the class `par-under-transformation` once more for the
+    # model comparison alone (CCaseM): a classified specification failure hides the case from both oracles otherwise, and
+    # the model mirrors the code on this class, so any OTHER change of behaviour on these inputs is still reported
+    for c in [c for c in cases if not c.get('dec') and 'side' not in c and _par_under_trafo(c['pt'])]:
+        c2 = dict(c)
+        c2['side'] = 'corr'
         cases.append(c2)
     return cases
 
@@ -257,7 +268,18 @@ def _build(n, build):
         scalar = {ch: expr_val(e) for ch, e in sc['map']} if isinstance(sc, dict) else expr_val(sc)
         body = build(n['body'])
         return ArithmeticPT(body, n['op'], scalar) if n['lhs'] else ArithmeticPT(scalar, n['op'], body)
+    if k == 'tpar':                   # round 5: a time dependent overwritten channel  a + b*t  (b None: a constant one)
+        return ParallelChannelPT(build(n['body']), {ch: (expr_val(a) if b is None else _tdep_str(a, b)) for ch, a, b in n['ow']})
+    if k == 'tarith':                 # round 5: a time dependent scalar operand
+        sc = n['scalar']
+        scalar = {ch: _tdep_str(a, b) for ch, a, b in sc['map']} if isinstance(sc, dict) else _tdep_str(sc[0], sc[1])
+        body = build(n['body'])
+        return ArithmeticPT(body, n['op'], scalar) if n['lhs'] else ArithmeticPT(scalar, n['op'], body)
     raise ValueError(k)
+
+
+def _tdep_str(a, b):
+    return '(%s) + (%s)*t' % (expr_str(a), expr_str(b))
 
 
 def grid_for(dur):
@@ -298,7 +320,7 @@ def run_impl(case):
         _NUMOBJ[0] = bool(case.get('numobj'))
         try:
             with vlib.time_limit(20):
-                pt = build(case['pt'], {('numobj', bool(case.get('numobj'))): None})
+                pt = build(case.get('pt_real', case['pt']), {('numobj', bool(case.get('numobj'))): None})
         except vlib.Timeout:
             return {'hang': True}
         except Exception as e:
@@ -667,7 +689,7 @@ def histogram_keys(case, obs):
             keys.append('dec-rate:%s' % r)
         if obs.get('render_off_grid'):
             keys.append('dec-render-linspace-off-by-ulp')
-    for tag in ('selfmap', 'alias', 'dropped', 'tname_shape', 'multizero', 'dec_form', 'nptypes', 'nearint'):
+    for tag in ('selfmap', 'alias', 'dropped', 'tname_shape', 'multizero', 'dec_form', 'nptypes', 'nearint', 'tdep', 'tdep_shape'):
         if tag in case:
             keys.append('%s:%s' % (tag, case[tag]))
     for tag in ('tname', 'warm', 'top_none', 'idx_rebound', 'multi_zero', 'dec_inner', 'numobj', 'as_scope', 'edge'):
@@ -692,8 +714,10 @@ def classify(case, obs):
         return 'par-under-transformation'
     if 'samples' in obs and case.get('final_triple'):
         return 'table-final-triple'       # in range only under time reversal; the sample at t = duration always differs
-    if case.get('dec_inner') and 'samples' in obs:
-        return 'decimal-table-inner-entry'   # flag set by the generator family (3-entry table at a non-zero decimal offset)
+    # round 5: narrowed.  The un-reversed part of `decimal-table-inner-entry` was repaired in /repo by e2c868b; what is left is
+    # the same table played time reversed (ReversedWaveform samples at float(duration) - t)
+    if case.get('dec_inner') and 'samples' in obs and 'rev' in G.node_kinds(case['pt']):
+        return 'decimal-table-inner-entry'
     if case.get('multi_zero') and ('samples' in obs or 'unplayable' in obs):
         return 'multi-zero-duration-part'  # flag set by the generator family (a part of duration <= 0 with a kept channel)
     return None
